@@ -34,12 +34,12 @@ def rhs_str(rl, scale=1.0):
     return " + ".join(terms)
 
 
-def render_rule(rl, dt, tpT):
+def render_rule(rl, dt, tpT, kscale=1):
     freq = {"repeat": "repeat", "start": "start", "dt": "dt"}.get(rl["freq"]) or repr(tpT)
     if rl["kind"] == "ode":
         return ("ode", {"equation": "(%s)/%r" % (rhs_str(rl), dt), "target": sname(rl["tgt"])}, "dt")
     if rl["kind"] == "param":
-        return ("assignment", {"equation": "k_r%d = %s" % (rl["tgt"] - 1, rhs_str(rl))}, freq)
+        return ("assignment", {"equation": "k_r%d = %s" % (rl["tgt"] - 1, rhs_str(rl, float(kscale)))}, freq)
     if rl["kind"] == "additive" and any(rl["c"]):
         return ("additive", {"equation": "%s = %s" % (sname(rl["tgt"]), " + ".join(sname(i + 1) for i, c in enumerate(rl["c"]) if c))}, freq)
     return ("assignment", {"equation": "%s = %s" % (sname(rl["tgt"]), rhs_str(rl))}, freq)
@@ -91,12 +91,19 @@ def impl_replay(job):
                                      ArrayDelayQueue, py_simulate_model)
     import bioscrape.random as brandom
     out = []
-    for rec in job["recs"]:
+    for n_rec, rec in enumerate(job["recs"]):
         res = {"ok": True}
         try:
-            nt, dt = rec["nt"], f(rec["dt"])
+            # change of the time unit (every second behaviour without an ode rule): the behaviour of RuleSsa.tla is
+            # invariant under  t -> t/5, k -> 5k  (waiting times are E/Lambda); the real grid is then 0.1, 0.2, 0.05
+            # apart and the scheduled rule times are grid times that are NOT dyadic (0.30000000000000004 = 3*0.1)
+            tsc = 5 if (n_rec % 2 == 1 and not any(rl["kind"] == "ode" for rl in rec["rules"])) else 1
+            if tsc != 1:
+                rec = dict(rec, prog=dict(rec["prog"], rx=[dict(rx, law=dict(rx["law"], k=[rx["law"]["k"][0] * tsc, rx["law"]["k"][1]]))
+                                                          for rx in rec["prog"]["rx"]]))
+            nt, dt = rec["nt"], f(rec["dt"]) / tsc
             tp = np.array([i * dt for i in range(nt)])
-            rules = [render_rule(rl, dt, (rl["T"] - 1) * dt) for rl in rec["rules"]]
+            rules = [render_rule(rl, dt, (rl["T"] - 1) * dt, tsc) for rl in rec["rules"]]
 
             def fresh():
                 m, _ = build(rec["prog"], x0=[[v, 1] for v in rec["x0"]], ns=rec["ns"], via_ctor=job["via"] == 1, rules=rules)
